@@ -107,10 +107,28 @@ def install_io(ex: Explorer) -> None:
                 # the awaitable did not finish in time: it is cancelled at its first blocking
                 # point (contract of wait_for) and TimeoutError is raised
                 I.ghost["timed_out"] = True
+                if isinstance(aw, VCoro) and aw.name.startswith("shielded"):
+                    # ... unless it is shielded: the operation stays pending after the timeout
+                    I.ghost["left_pending"] = I.ghost.get("left_pending", 0) + 1
                 I.raise_py(TimeoutError, "wait_for")
             return I.await_v(aw)
         return coro(go)
     models.MODELS[asyncio.wait_for] = wait_for
+
+    def shield(I: Interp, args: list[V], kwargs: dict[str, V]) -> V:
+        aw = args[0]
+        if isinstance(aw, VCoro):
+            return VCoro(aw.thunk, "shielded:" + aw.name)
+        return aw
+    models.MODELS[asyncio.shield] = shield
+
+    def create_task(I: Interp, args: list[V], kwargs: dict[str, V]) -> V:
+        # the coroutine is scheduled, not run: it makes progress only at later suspension points
+        I.ghost.setdefault("spawned", []).append(args[0])
+        return stub("spawned-task")
+    models.MODELS[asyncio.create_task] = create_task
+    models.MODELS[asyncio.ensure_future] = create_task
+    ex.stubs[("spawned-task", "add_done_callback")] = lambda I, r, a, k: NONE
 
 
 def lock_model(I: Interp, cm: V) -> Any:
